@@ -317,6 +317,23 @@ def run(tier):
     for p in sorted(rparsers):
         rep.check(p in tests["parsers"], "quotes-mirror-parser", p, "the resolver uses str::parse::<%s> but need_quotes does not" % p, site=nf.span)
     rep.floor("std parsers used by the resolver", len(rparsers), 1)
+    # ... and they are disjuncts of need_quotes on the whole text: a path that answers "no quotes needed" has run every one of them (a
+    # length limit, a fast exit or any other conjunct in front of a parser lets texts the loader types as numbers out bare)
+    nparse = 0
+    truths = {bi for bi, si, st in cfg.stmts(nf) if st["k"] == "assign" and st["lhs"]["l"] == 0 and not st["lhs"]["p"] and st["rv"]["k"] == "use"
+              and op_const(st["rv"]["a"]) is not None and const_value(op_const(st["rv"]["a"])) is True}
+    for bb, t, ck, fr in nf.calls():
+        if ck == "str::parse" and {x for x in fr["substs"] if x in ("i64", "f64")}:
+            nparse += 1
+            ty = sorted(x for x in fr["substs"] if x in ("i64", "f64"))[0]
+            arg = cfg.strip_reborrow(cfg.expr_operand(nf, t["args"][0], 8))
+            whole_text = arg in (("param", 1), ("ref", ("param", 1))) or (arg[0] == "place" and arg[1] == ("param", 1) and all(x == "deref" for x in arg[2]))
+            esc = cfg.flag_reach(nf, 0, cfg.return_blocks(nf), avoid=truths | {bb})
+            rep.check(esc is None and whole_text, "quotes-number-test-unconditional", "parse::<%s>" % ty,
+                      "need_quotes can answer `false` without having run str::parse::<%s> on the whole text%s: a string that spells a number the loader accepts "
+                      "is emitted bare and reloads as a number" % (ty, "" if whole_text else " (it parses %s)" % cfg.expr_str(arg)[:60]), site=site(nf, t["sp"]),
+                      detail={"escaping_path": esc})
+    rep.floor("number parsers in need_quotes", nparse, 2)
 
     emitter_layout(rep, F)
     # (b') integer spelling: the emitter writes an Integer with Display; the inverse of <i64 as Display> is str::parse::<i64> on the whole,
